@@ -45,9 +45,12 @@ Definition plines_run (lines : list string) (n : node) (min_col : nat) : nat * n
     harness with the real Decode on every scalar node (harness/shared_yaml/forest.go). *)
 Definition int_ok_run (n : node) : bool := N.testbit (n_ann n) 6.
 
+(** yaml.Node.Decode into `any` succeeds and yields nil (nullTagWithText, fix b9483ac): per-NODE answer bit 12. *)
+Definition null_ok_run (n : node) : bool := N.testbit (n_ann n) 12.
+
 Definition run_strict (thanos : bool) (lines : list string) (ds : list (node * nat)) (yerr : option nat) : file :=
   let tbl := ann_table ds in
-  parse_strict plines_run (ann_bit tbl 0) (ann_bit tbl 1) (ann_bit tbl 2) (ann_bit tbl 3) int_ok_run
+  parse_strict plines_run (ann_bit tbl 0) (ann_bit tbl 1) (ann_bit tbl 2) (ann_bit tbl 3) int_ok_run null_ok_run
                thanos lines ds (option_map (fun l => Build_perror l "") yerr).
 
 Definition run_relaxed (lines : list string) (ds : list (node * nat)) (yerr : option nat) : option file :=
